@@ -526,11 +526,19 @@ def c20_init(stream, scen=None):
     """family sysi (one system; every `counts` comes after its first simulate): every registered asset
     has been initialised exactly once -- also the assets constructed while the others were being
     initialised, and the ones constructed later."""
-    if not scen or not any(l[:3] == ['S', 'asset', 'maker'] for l in scen):
+    if not scen or not any(l[:3] in (['S', 'asset', 'maker'], ['S', 'asset', 'nester']) for l in scen):
         return []
     if any(l.startswith('sres err') for l in stream):
         return []          # outside the family's shape
     wit = []
+    # look-up by id alone: exactly the registered asset with that id (every S line answers with one line)
+    sops = [l for l in scen if l[0] == 'S']
+    outs = [l for l in stream if l.startswith(('sres', 'scount'))]
+    if len(sops) == len(outs):
+        for op, o in zip(sops, outs):
+            if op[1] == 'find' and op[3] == '-' and op[4] != '-' and op[5] == '-' and op[6] == '-':
+                if o.strip() != f'sres found {op[4]}':
+                    wit.append(f'find_assets(id_ of asset {op[4]}) answered "{o.strip()}", expected exactly that asset')
     for l in stream:
         if l.startswith('scount'):
             body = l[6:].strip()
